@@ -1,11 +1,16 @@
 import Driver.Proto
 import Driver.Kw
+import Driver.Pratt
+import Driver.Tok
 /-! Model driver: one request per line `op \t arg …`, one answer per line. -/
 namespace Driver
 
 def dispatch (line : String) : String :=
   match line.splitOn "\t" with
   | "kw" :: args => handleKw args
+  | "prec" :: args => Pr.handlePrec args
+  | "chains" :: args => Pr.handleChains args
+  | "tok" :: args => handleTok args
   | _ => "bad-op"
 
 partial def loop (h : IO.FS.Stream) (out : IO.FS.Stream) : IO Unit := do
